@@ -103,6 +103,20 @@ def cases(tier):
         add("einsum(ijb,ijbg->bg,imag_part=False)", lambda x, y: cplx.make_complex(cplx.einsum("ijb,ijbg->bg", x, y, imag_part=False)),
             [(n, n, m), (n, n, m, 2)], lambda x, y: _re(np.einsum("ijb,ijbg->bg", x, y)))
         add("matmul(shape mismatch)", lambda x, y: cplx.matmul(x, y), [(n, m), (m + 1, n)], exc=(RuntimeError, ValueError))
+    # the same tensor OBJECT as both operands (squares, norms, x x^T): the result is the product of the operand with itself,
+    # whatever shortcut a function takes when it notices that its arguments are identical
+    for s in _shapes(dims, min(ranks, 3)):
+        add("scalar_mult(x, x) same object", lambda x: cplx.scalar_mult(x, x), [s], lambda x: x * x)
+        add("elementwise_mult(x, x) same object", lambda x: cplx.elementwise_mult(x, x), [s], lambda x: x * x)
+        add("elementwise_division(x, x) same object", lambda x: cplx.elementwise_division(x, x), [s], ("mul-back", lambda r, x: (r * x, x)))
+    for n in dims:
+        add("matmul(A, A) same object", lambda x: cplx.matmul(x, x), [(n, n)], lambda x: np.matmul(x, x))
+        add("matmul(A, A) same object, batched", lambda x: cplx.matmul(x, x), [(2, n, n)], lambda x: np.matmul(x, x))
+        add("inner_prod(x, x) same object", lambda x: cplx.inner_prod(x, x), [(n,)], lambda x: np.sum(np.conj(x) * x))
+        add("outer_prod(x, x) same object", lambda x: cplx.outer_prod(x, x), [(n,)], lambda x: np.multiply.outer(x, np.conj(x)))
+        add("einsum(ij,jk->ik)(A, A) same object", lambda x: cplx.einsum("ij,jk->ik", x, x), [(n, n)], lambda x: np.einsum("ij,jk->ik", x, x))
+        add("einsum(i,i->)(x, x) same object", lambda x: cplx.einsum("i,i->", x, x), [(n,)], lambda x: np.einsum("i,i->", x, x))
+        add("kronecker_prod(A, A) same object", lambda x: cplx.kronecker_prod(x, x), [(n, n)], lambda x: _kron(x, x))
     # the index letters of an equation are the caller's choice: every letter torch accepts, in every role, with blanks,
     # and the implicit-output form (size-2 axes, where a clash with an internally added axis would not even raise)
     import string
